@@ -4,6 +4,7 @@ package checks
 // C21 — node selection yields exactly the filtered set of distinct nodes (observed at the resource manager).
 
 import (
+	"time"
 	"context"
 	"fmt"
 	"math/rand"
@@ -167,18 +168,28 @@ func TestC20(t *testing.T) {
 	smallPool := env.NBatch > 1 && env.Batch%2 == 1
 	if smallPool {
 		b := sim.NewBoundary()
-		cl := sim.Boot(t, b, sim.BootOpts{MaxConcurrency: 48}, nil)
+		cl := sim.Boot(t, b, sim.BootOpts{MaxConcurrency: 400}, nil)
 		w = &world{t: t, env: env, rec: rec, b: b, cl: cl, model: sim.NewModel()}
 	}
 	// saturate fills the pool with blocked tasks until it refuses; it returns the release function
 	saturate := func() func() {
 		release := make(chan struct{})
 		n := 0
-		for i := 0; i < 1000; i++ {
+		// fill until the pool refuses, then make sure it STAYS full: a lingering task of an earlier operation that
+		// ends a moment later would free a worker, the operation's remap task would be accepted and its inner task
+		// refused - core then leaves the remap waiting forever on a channel nobody closes, holding the node-operation
+		// lock (observed: later waits of the harness ran into their patience until the watchdog fired)
+		for stable := 0; stable < 3; {
 			if err := w.cl.C.VerifPoolInvoke(func() { <-release }); err != nil {
+				stable++
+				time.Sleep(20 * time.Millisecond)
+				continue
+			}
+			stable = 0
+			n++
+			if n > 5000 {
 				break
 			}
-			n++
 		}
 		rec.Count("pool_saturations", 1)
 		rec.Max("max:pool_workers_occupied", n)
